@@ -42,6 +42,19 @@ def install(s):
         st.draws.append(('f' if bits == 32 else 'd', v.t, lo, hi))
         return v
     B['@__verif_nondet_float'] = nondet_float
+    # linear-solver model: its result is a FUNCTION of everything it was given.  In 'uf' float mode the inputs are folded into an
+    # uninterpreted digest and the i-th result is an uninterpreted function of (digest, i); in the other modes the digest is 0 and
+    # the result an arbitrary finite float (as before).
+    def uf_mix(e, st, a, ins):
+        if e.cfg['fp'] != 'uf': return 0.0
+        return e.fp_ufv('mix', 64, [e.fp_lift(a[0], 64), e.fp_lift(a[1], 64)], False)
+    B['@__verif_uf_mix'] = uf_mix
+    def cg_result(e, st, a, ins):
+        if e.cfg['fp'] != 'uf': return nondet_float(e, st, [-3.0e38, 3.0e38], ins, 32)
+        h = e.fp_lift(a[0], 64); i = a[1]
+        f = e.fp_ufv('cgres%s' % (i if isinstance(i, int) else 'x'), 32, [h], False)
+        return f
+    B['@__verif_cg_result'] = cg_result
     B['@__verif_nondet_double'] = lambda e, st, a, ins: nondet_float(e, st, a, ins, 64)
     def choice(e, st, a, ins):
         n = conc(e, st, a[0], 'choice arity')
@@ -344,6 +357,7 @@ def install(s):
             x = a[0]
             if isinstance(x, SF):
                 if e.cfg['fp'] == 'havoc': return SF(None, bits, taint=x.taint)
+                if e.cfg['fp'] == 'uf': return e.fp_ufv('libm_' + name.replace('.', '_'), bits, [x], x.taint)
                 raise EngineError('libm %s on symbolic argument (contract not modelled)' % name)
             try: r = fn(x)
             except (ValueError, OverflowError): r = math.nan
@@ -362,6 +376,7 @@ def install(s):
             x, y = a
             if isinstance(x, SF) or isinstance(y, SF):
                 if e.cfg['fp'] == 'havoc': return SF(None, bits)
+                if e.cfg['fp'] == 'uf': return e.fp_ufv('libm_pow', bits, [e.fp_lift(x, bits), e.fp_lift(y, bits)], False)
                 raise EngineError('pow on symbolic argument')
             try: r = math.pow(x, y)
             except (ValueError, OverflowError): r = math.nan
